@@ -42,7 +42,17 @@ func (f *filler) fillType(t types.Type, name string, depth int) Value {
 	if p, ok := t.Underlying().(*types.Pointer); ok {
 		if isBigInt(p.Elem()) {
 			if f.isWide() {
-				switch in.ctx.Concretize(in.choiceVar(f.tag+"_"+name+"_bigkind", 4), "fill big kind") {
+				switch in.ctx.Concretize(in.choiceVar(f.tag+"_"+name+"_bigkind", 6), "fill big kind") {
+				case 4:
+					// full 64-bit magnitudes (word boundary of the big.Int representation)
+					x := in.ctx.NewVar(f.tag+"_"+name, 64)
+					in.ctx.Assume(BVCmp("bvuge", x, BVConstU(64, 1<<56)))
+					return newBig(bvToIntU(x))
+				case 5:
+					// 65..72-bit magnitudes
+					x := in.ctx.NewVar(f.tag+"_"+name, 72)
+					in.ctx.Assume(BVCmp("bvuge", x, BVConst(72, new(big.Int).Lsh(big.NewInt(1), 64))))
+					return newBig(bvToIntU(x))
 				case 0:
 					return (*Value)(nil)
 				case 1:
